@@ -8,13 +8,17 @@ Open Scope nat_scope.
 (* ------------------------------------------------------------------ writer states along a traversal *)
 Definition kpos (w : wr) : Prop :=
   w_mode w = DObject /\ w_mixed w = MDisabled /\ (w_state w = WKey \/ w_state w = WFirstKey).
+(* element position in an array opened by write_array_start or by write_start (unknown kind) *)
+Definition astate (s : wstate) : Prop :=
+  s = WArrayValue \/ s = WArrayValueFirst \/ s = WFirstUnknown \/ s = WSecondUnknown.
 Definition vpos (w : wr) : Prop :=
   w_mixed w = MDisabled /\
   ((w_mode w = DObject /\ (w_state w = WKeyValueSeparator \/ w_state w = WObjectValue)) \/
-   (w_mode w = DArray /\ (w_state w = WArrayValue \/ w_state w = WArrayValueFirst))).
+   (w_mode w = DArray /\ astate (w_state w))).
 Definition wkey (w : wr) : wr := mkwr DObject (w_depth w) WKey true MDisabled.
 Definition vpost (w : wr) (v : value) : wr :=
-  mkwr (w_mode w) (w_depth w) (match w_mode w with DObject => WKey | DArray => WArrayValue end)
+  mkwr (w_mode w) (w_depth w)
+       (match w_mode w with DObject => WKey | DArray => if ends_nl v then WArrayValue else ws_next_spec (w_state w) end)
        (match w_mode w with DObject => true | DArray => ends_nl v end) MDisabled.
 Fixpoint ipost (w : wr) (vs : values) : wr :=
   match vs with VNil => w | VCons v vs' => ipost (vpost w v) vs' end.
@@ -141,7 +145,7 @@ Definition Pfs (fs : fields) : Prop := forall f off w,
   WOk (if fields_empty fs then w else wkey w) (cbytes (ch_fields c (dep w) (pre_bytes c w) fs)).
 
 Definition ipos (w : wr) : Prop :=
-  w_mode w = DArray /\ w_mixed w = MDisabled /\ (w_state w = WArrayValue \/ w_state w = WArrayValueFirst).
+  w_mode w = DArray /\ w_mixed w = MDisabled /\ astate (w_state w).
 
 Definition Pvs (vs : values) : Prop := forall f ti ei w,
   rt_values vs = true -> wf_items vs = true -> seg t ti (flat_values ti vs) ->
@@ -163,7 +167,7 @@ Proof.
   cbn [ch_value]. rewrite cbytes_cons. cbn [stok fst cbytes flat_map]. rewrite app_nil_r. f_equal.
   rewrite (vpos_pre _ Hp). destruct w as [m d st n x]. destruct Hp as [Hx Hp]. cbn in Hx, Hp. subst x.
   unfold vpost, epi_state. cbn.
-  destruct Hp as [[-> [-> | ->]] | [-> [-> | ->]]]; reflexivity.
+  destruct Hp as [[-> [-> | ->]] | [-> [-> | [-> | [-> | ->]]]]]; reflexivity.
 Qed.
 
 Lemma wbind_ok2 w2 o1 o2 K :
@@ -182,11 +186,14 @@ Proof.
 Qed.
 
 Lemma vpost_ipos w v : ipos w -> ipos (vpost w v).
-Proof. intros [Hm _]. unfold ipos, vpost. cbn. rewrite Hm. auto. Qed.
+Proof.
+  intros [Hm [_ Hs]]. unfold ipos, vpost, astate. cbn. rewrite Hm. repeat split; auto.
+  destruct (ends_nl v); [auto|]. destruct Hs as [-> | [-> | [-> | ->]]]; cbn; auto.
+Qed.
 Lemma vpost_pre_bytes w v : ipos w -> pre_bytes c (vpost w v) = sepgap c (dep w) (ends_nl v).
 Proof.
-  intros [Hm _]. unfold vpost, pre_bytes, sepgap, nli, ind, dep. cbn. rewrite Hm. cbn.
-  destruct (ends_nl v); reflexivity.
+  intros [Hm [_ Hs]]. unfold vpost, pre_bytes, sepgap, nli, ind, dep. cbn. rewrite Hm. cbn.
+  destruct (ends_nl v); [reflexivity|]. destruct Hs as [-> | [-> | [-> | ->]]]; reflexivity.
 Qed.
 Lemma ipos_vpos w : ipos w -> vpos w.
 Proof. intros [Hm [Hx Hs]]. split; [exact Hx|]. right. auto. Qed.
@@ -212,13 +219,27 @@ Proof.
   induction vs as [|v vs IH]; [cbn; lia|]. rewrite vslen_cons. cbn [vcount]. pose proof (vlen_pos v). lia.
 Qed.
 
-Lemma ipost_cons_eq w v vs : w_mode w = DArray ->
+Lemma ipost_cons_eq w v vs : w_mode w = DArray -> w_state w = WArrayValue \/ w_state w = WArrayValueFirst ->
   ipost w (VCons v vs) = mkwr DArray (w_depth w) WArrayValue (items_nl (ends_nl v) vs) MDisabled.
 Proof.
-  revert w v. induction vs as [|v2 vs IH]; intros w v Hm.
-  - cbn [ipost items_nl]. unfold vpost. rewrite Hm. reflexivity.
+  revert w v. induction vs as [|v2 vs IH]; intros w v Hm Hs.
+  - cbn [ipost items_nl]. unfold vpost. rewrite Hm. destruct (ends_nl v); [reflexivity|].
+    destruct Hs as [-> | ->]; reflexivity.
   - change (ipost w (VCons v (VCons v2 vs))) with (ipost (vpost w v) (VCons v2 vs)).
-    rewrite IH; [|unfold vpost; cbn; exact Hm]. reflexivity.
+    rewrite IH; [reflexivity|unfold vpost; cbn; exact Hm|].
+    left. unfold vpost. cbn. rewrite Hm. destruct (ends_nl v); [reflexivity|]. destruct Hs as [-> | ->]; reflexivity.
+Qed.
+
+(* in general (also after write_start): depth kept, and some data has been written *)
+Lemma ipost_general w vs : ipos w ->
+  w_depth (ipost w vs) = w_depth w /\
+  no_data_yet (w_state (ipost w vs)) = (if values_empty vs then no_data_yet (w_state w) else false).
+Proof.
+  revert w. induction vs as [|v vs IH]; intros w Hp; [split; reflexivity|].
+  cbn [ipost values_empty]. destruct (IH (vpost w v) (vpost_ipos w v Hp)) as [Hd Hn]. split; [exact Hd|].
+  rewrite Hn. destruct vs; [|reflexivity]. cbn [values_empty].
+  destruct Hp as [Hm [_ Hs]]. unfold vpost. cbn. rewrite Hm. destruct (ends_nl v); [reflexivity|].
+  destruct Hs as [-> | [-> | [-> | ->]]]; reflexivity.
 Qed.
 
 Lemma write_end_shape w m rest : w_depth w = m :: rest ->
@@ -244,16 +265,16 @@ Proof.
   destruct f as [|g]; [lia|]. rewrite (wt_value_array _ _ _ _ _ _ _ Hh), write_array_start_shape.
   rewrite (start_state_vpos _ _ _ Hp). cbn [wbind].
   set (w1 := mkwr DArray (w_mode w :: w_depth w) WArrayValueFirst true MDisabled).
-  rewrite (HI g (S off) (S off + vslen items) w1); try assumption; [|lia|lia|repeat split; auto].
+  rewrite (HI g (S off) (S off + vslen items) w1); try assumption; [|lia|lia|repeat split; unfold astate; auto].
   pose proof (vcount_le items). cbn [wbind].
   destruct (g - vcount items) as [|g2] eqn:Eg; [lia|]. rewrite wt_loop_end by lia. cbn [wbind].
   rewrite (write_end_shape _ (w_mode w) (w_depth w)).
-  2:{ destruct items; [reflexivity|]. rewrite ipost_cons_eq; reflexivity. }
+  2:{ destruct items; [reflexivity|]. rewrite ipost_cons_eq; auto. }
   f_equal; [unfold vpost; destruct (w_mode w); reflexivity|].
   cbn [ch_value]. rewrite cbytes_cons, cbytes_app, cbytes_cons. change (cbytes []) with (@nil N).
   cbn [lbrace rbrace fst]. rewrite !app_nil_r, <- !app_assoc. f_equal. f_equal.
   change (dep w1) with (S (dep w)). change (pre_bytes c w1) with (nli c (S (dep w))). f_equal. f_equal.
-  destruct items; [reflexivity|]. rewrite ipost_cons_eq; reflexivity.
+  destruct items; [reflexivity|]. rewrite ipost_cons_eq; auto.
 Qed.
 
 Lemma V_object fs tl : Pfs fs -> Pv (VObject fs tl).
@@ -265,7 +286,7 @@ Proof.
   destruct f as [|g]; [lia|]. rewrite (wt_value_object _ _ _ _ _ _ _ Hh), write_object_start_shape.
   rewrite (start_state_vpos _ _ _ Hp). cbn [wbind].
   set (w1 := mkwr DObject (w_mode w :: w_depth w) WFirstKey true MDisabled).
-  rewrite (HF g (S off) w1); try assumption; [|lia|repeat split; auto]. cbn [wbind].
+  rewrite (HF g (S off) w1); try assumption; [|lia|repeat split; unfold astate; auto]. cbn [wbind].
   rewrite (write_end_shape _ (w_mode w) (w_depth w)) by (destruct fs; reflexivity).
   f_equal; [unfold vpost; destruct (w_mode w); reflexivity|].
   cbn [ch_value]. rewrite cbytes_cons, cbytes_app, cbytes_cons. change (cbytes []) with (@nil N).
@@ -482,8 +503,8 @@ Proof.
   set (e := S (S off + vslen (VCons v0 vs0) + fslen true kvs)) in *.
   pose proof (vcount_le (VCons v0 vs0)) as Hvc.
   erewrite wbind_ok.
-  2:{ rewrite (HI g (S off) e w1); try assumption; [|unfold e; lia|lia|repeat split; auto].
-      rewrite ipost_cons_eq by reflexivity.
+  2:{ rewrite (HI g (S off) e w1); try assumption; [|unfold e; lia|lia|repeat split; unfold astate; auto].
+      rewrite ipost_cons_eq by auto.
       destruct (g - vcount (VCons v0 vs0)) as [|[|g2]] eqn:Eg; [lia|lia|].
       erewrite (wbind_ok _ _ (fun w' => wt _ c t (JArrayLoop _ e) w')).
       2:{ cbn beta.
